@@ -22,10 +22,15 @@
 EXTENDS Integers, Sequences, FiniteSets
 CONSTANTS MaxThreads,      \* setMaxThreadCount
           MaxTasks, MaxOps, MaxSpawn,
-          FlagUnderMutex, AllowSpurious
+          FlagUnderMutex, AllowSpurious,
+          Expiry,          \* workers expire (setExpiryTimeout >= 0) and the owner may call update()
+          FinishedAtomic   \* Thread::m_isFinished is std::atomic (FALSE = the plain bool it was before the fix)
 VARIABLES queue, pool, running, qmx, pmx, cv, woken, opc, oarg, wpc, wtask, tstate,
-          nextTask, nextW, opsLeft, finalDone
-vars == <<queue, pool, running, qmx, pmx, cv, woken, opc, oarg, wpc, wtask, tstate, nextTask, nextW, opsLeft, finalDone>>
+          nextTask, nextW, opsLeft, finalDone,
+          expired,         \* workers whose idle time exceeds the expiry timeout (virtual clock)
+          bornExpired      \* the clock passed the timeout between `new PooledThread()` (which stamps the activity time,
+                           \* in the SPool step) and the creation of its thread (SCreate)
+vars == <<queue, pool, running, qmx, pmx, cv, woken, opc, oarg, wpc, wtask, tstate, nextTask, nextW, opsLeft, finalDone, expired, bornExpired>>
 
 Workers == 1..MaxSpawn
 Tasks == 1..MaxTasks
@@ -34,7 +39,8 @@ TypeOK == /\ queue \in Seq(Tasks) /\ pool \in Seq(Workers) /\ running \in BOOLEA
           /\ qmx \in {-1} \cup Workers /\ pmx \in {-1, 0}
           /\ cv \subseteq Workers /\ woken \subseteq Workers
           /\ opc \in {"idle", "s_lockq", "s_lockpool", "s_create", "s_notify", "c_lockq",
-                      "t_flag", "t_notify", "t_lockpool", "t_join", "t_lockq", "done"}
+                      "t_flag", "t_notify", "t_lockpool", "t_join", "t_lockq", "done",
+                      "u_notify", "u_lockpool", "u_join"}
           /\ wpc \in [Workers -> {"none", "start", "lockq", "prewait", "wait", "run", "done", "joined"}]
           /\ wtask \in [Workers -> Tasks \cup {0}]
           /\ tstate \in [Tasks -> {"none", "new", "queued", "running", "destroyed"}]
@@ -43,7 +49,7 @@ Init == /\ queue = <<>> /\ pool = <<>> /\ running = TRUE /\ qmx = -1 /\ pmx = -1
         /\ cv = {} /\ woken = {} /\ opc = "idle" /\ oarg = 0
         /\ wpc = [w \in Workers |-> "none"] /\ wtask = [w \in Workers |-> 0]
         /\ tstate = [k \in Tasks |-> "none"]
-        /\ nextTask = 1 /\ nextW = 1 /\ opsLeft = MaxOps /\ finalDone = FALSE
+        /\ nextTask = 1 /\ nextW = 1 /\ opsLeft = MaxOps /\ finalDone = FALSE /\ expired = {} /\ bornExpired = FALSE
 
 Range(s) == {s[i] : i \in 1..Len(s)}
 Finished(w) == wpc[w] \in {"done", "joined"}       \* Thread::m_isFinished
@@ -54,34 +60,36 @@ SCall == /\ opc = "idle" /\ opsLeft > 0 /\ nextTask <= MaxTasks
          /\ oarg' = nextTask /\ nextTask' = nextTask + 1 /\ opsLeft' = opsLeft - 1
          /\ tstate' = [tstate EXCEPT ![nextTask] = "new"]
          /\ opc' = "s_lockq"
-         /\ UNCHANGED <<queue, pool, qmx, pmx, cv, woken, wpc, wtask, nextW, finalDone>>
+         /\ UNCHANGED <<queue, pool, qmx, pmx, cv, woken, wpc, wtask, nextW, finalDone, expired, bornExpired>>
 SPush == /\ opc = "s_lockq" /\ qmx = -1
          /\ queue' = Append(queue, oarg) /\ tstate' = [tstate EXCEPT ![oarg] = "queued"]
          /\ opc' = "s_lockpool"
-         /\ UNCHANGED <<pool, running, qmx, pmx, cv, woken, oarg, wpc, wtask, nextTask, nextW, opsLeft, finalDone>>
+         /\ UNCHANGED <<pool, running, qmx, pmx, cv, woken, oarg, wpc, wtask, nextTask, nextW, opsLeft, finalDone, expired, bornExpired>>
 SPool == /\ opc = "s_lockpool" /\ pmx = -1
          /\ IF Len(pool) < MaxThreads /\ \A w \in Range(pool) : ~Finished(w)
             THEN pmx' = 0 /\ opc' = "s_create"
             ELSE pmx' = -1 /\ opc' = "s_notify"
-         /\ UNCHANGED <<queue, pool, running, qmx, cv, woken, oarg, wpc, wtask, tstate, nextTask, nextW, opsLeft, finalDone>>
+         /\ UNCHANGED <<queue, pool, running, qmx, cv, woken, oarg, wpc, wtask, tstate, nextTask, nextW, opsLeft, finalDone, expired, bornExpired>>
 SCreate == /\ opc = "s_create" /\ nextW <= MaxSpawn
            /\ wpc' = [wpc EXCEPT ![nextW] = "start"] /\ pool' = Append(pool, nextW) /\ nextW' = nextW + 1
            /\ pmx' = -1 /\ opc' = "s_notify"
+           /\ expired' = IF bornExpired THEN expired \cup {nextW} ELSE expired
+           /\ bornExpired' = FALSE
            /\ UNCHANGED <<queue, running, qmx, cv, woken, oarg, wtask, tstate, nextTask, opsLeft, finalDone>>
 SNotify(w) == /\ opc = "s_notify"
               /\ IF cv = {} THEN w = 0 /\ UNCHANGED <<cv, woken>>
                             ELSE w \in cv /\ cv' = cv \ {w} /\ woken' = woken \cup {w}
               /\ opc' = "idle"
-              /\ UNCHANGED <<queue, pool, running, qmx, pmx, oarg, wpc, wtask, tstate, nextTask, nextW, opsLeft, finalDone>>
+              /\ UNCHANGED <<queue, pool, running, qmx, pmx, oarg, wpc, wtask, tstate, nextTask, nextW, opsLeft, finalDone, expired, bornExpired>>
 
 (* ---------------- owner: clear() ---------------- *)
 DestroyQueued == [k \in Tasks |-> IF tstate[k] = "queued" THEN "destroyed" ELSE tstate[k]]
 CCall == /\ opc = "idle" /\ opsLeft > 0
          /\ opsLeft' = opsLeft - 1 /\ opc' = "c_lockq"
-         /\ UNCHANGED <<queue, pool, running, qmx, pmx, cv, woken, oarg, wpc, wtask, tstate, nextTask, nextW, finalDone>>
+         /\ UNCHANGED <<queue, pool, running, qmx, pmx, cv, woken, oarg, wpc, wtask, tstate, nextTask, nextW, finalDone, expired, bornExpired>>
 CClear == /\ opc = "c_lockq" /\ qmx = -1
           /\ tstate' = DestroyQueued /\ queue' = <<>> /\ opc' = "idle"
-          /\ UNCHANGED <<pool, running, qmx, pmx, cv, woken, oarg, wpc, wtask, nextTask, nextW, opsLeft, finalDone>>
+          /\ UNCHANGED <<pool, running, qmx, pmx, cv, woken, oarg, wpc, wtask, nextTask, nextW, opsLeft, finalDone, expired, bornExpired>>
 
 (* ---------------- owner: stop() ---------------- *)
 TCall == /\ opc = "idle" /\ (opsLeft > 0 \/ ~finalDone)
@@ -89,31 +97,32 @@ TCall == /\ opc = "idle" /\ (opsLeft > 0 \/ ~finalDone)
                            ELSE finalDone' = TRUE /\ UNCHANGED opsLeft
          /\ IF FlagUnderMutex THEN opc' = "t_flag" /\ UNCHANGED running
                               ELSE opc' = "t_notify" /\ running' = FALSE
-         /\ UNCHANGED <<queue, pool, qmx, pmx, cv, woken, oarg, wpc, wtask, tstate, nextTask, nextW>>
+         /\ UNCHANGED <<queue, pool, qmx, pmx, cv, woken, oarg, wpc, wtask, tstate, nextTask, nextW, expired, bornExpired>>
 TFlag == /\ opc = "t_flag" /\ qmx = -1
          /\ running' = FALSE /\ opc' = "t_notify"
-         /\ UNCHANGED <<queue, pool, qmx, pmx, cv, woken, oarg, wpc, wtask, tstate, nextTask, nextW, opsLeft, finalDone>>
+         /\ UNCHANGED <<queue, pool, qmx, pmx, cv, woken, oarg, wpc, wtask, tstate, nextTask, nextW, opsLeft, finalDone, expired, bornExpired>>
 TNotify == /\ opc = "t_notify"
            /\ woken' = woken \cup cv /\ cv' = {} /\ opc' = "t_lockpool"
-           /\ UNCHANGED <<queue, pool, running, qmx, pmx, oarg, wpc, wtask, tstate, nextTask, nextW, opsLeft, finalDone>>
+           /\ UNCHANGED <<queue, pool, running, qmx, pmx, oarg, wpc, wtask, tstate, nextTask, nextW, opsLeft, finalDone, expired, bornExpired>>
 TLockPool == /\ opc = "t_lockpool" /\ pmx = -1
              /\ IF pool = <<>> THEN opc' = "t_lockq" /\ UNCHANGED <<pmx, oarg>>
                                ELSE pmx' = 0 /\ opc' = "t_join" /\ oarg' = 1
-             /\ UNCHANGED <<queue, pool, running, qmx, cv, woken, wpc, wtask, tstate, nextTask, nextW, opsLeft, finalDone>>
+             /\ UNCHANGED <<queue, pool, running, qmx, cv, woken, wpc, wtask, tstate, nextTask, nextW, opsLeft, finalDone, expired, bornExpired>>
 TJoin == /\ opc = "t_join" /\ wpc[pool[oarg]] = "done"
          /\ wpc' = [wpc EXCEPT ![pool[oarg]] = "joined"]
          /\ IF oarg < Len(pool) THEN oarg' = oarg + 1 /\ UNCHANGED <<pool, pmx, opc>>
                                 ELSE pool' = <<>> /\ pmx' = -1 /\ opc' = "t_lockq" /\ oarg' = 0
-         /\ UNCHANGED <<queue, running, qmx, cv, woken, wtask, tstate, nextTask, nextW, opsLeft, finalDone>>
+         /\ UNCHANGED <<queue, running, qmx, cv, woken, wtask, tstate, nextTask, nextW, opsLeft, finalDone, expired, bornExpired>>
 TClearQ == /\ opc = "t_lockq" /\ qmx = -1
            /\ tstate' = DestroyQueued /\ queue' = <<>>
            /\ opc' = IF finalDone THEN "done" ELSE "idle"
-           /\ UNCHANGED <<pool, running, qmx, pmx, cv, woken, oarg, wpc, wtask, nextTask, nextW, opsLeft, finalDone>>
+           /\ UNCHANGED <<pool, running, qmx, pmx, cv, woken, oarg, wpc, wtask, nextTask, nextW, opsLeft, finalDone, expired, bornExpired>>
 
 (* ---------------- workers: PooledRunnable::run() ---------------- *)
 \* the wait predicate and what follows it, evaluated with m_queueMutex held
-Eval(w) == IF queue # <<>> \/ ~running
-           THEN IF ~running
+IsExpired(w) == Expiry /\ w \in expired
+Eval(w) == IF queue # <<>> \/ ~running \/ IsExpired(w)
+           THEN IF ~running \/ (queue = <<>> /\ IsExpired(w))
                 THEN /\ wpc' = [wpc EXCEPT ![w] = "done"]      \* return; delete PooledRunnable; m_isFinished = true
                      /\ qmx' = -1 /\ UNCHANGED <<queue, wtask, tstate>>
                 ELSE /\ wtask' = [wtask EXCEPT ![w] = Head(queue)] /\ queue' = Tail(queue)
@@ -122,30 +131,65 @@ Eval(w) == IF queue # <<>> \/ ~running
            ELSE /\ qmx' = w /\ wpc' = [wpc EXCEPT ![w] = "prewait"]   \* about to call pthread_cond_wait
                 /\ UNCHANGED <<queue, wtask, tstate>>
 WStart(w) == /\ wpc[w] = "start" /\ wpc' = [wpc EXCEPT ![w] = "lockq"]
-             /\ UNCHANGED <<queue, pool, running, qmx, pmx, cv, woken, opc, oarg, wtask, tstate, nextTask, nextW, opsLeft, finalDone>>
+             /\ UNCHANGED <<queue, pool, running, qmx, pmx, cv, woken, opc, oarg, wtask, tstate, nextTask, nextW, opsLeft, finalDone, expired, bornExpired>>
 WAcq(w) == /\ wpc[w] = "lockq" /\ qmx = -1 /\ Eval(w)
-           /\ UNCHANGED <<pool, running, pmx, cv, woken, opc, oarg, nextTask, nextW, opsLeft, finalDone>>
+           /\ UNCHANGED <<pool, running, pmx, cv, woken, opc, oarg, nextTask, nextW, opsLeft, finalDone, expired, bornExpired>>
 WBlock(w) == /\ wpc[w] = "prewait"
              /\ qmx' = -1 /\ cv' = cv \cup {w} /\ wpc' = [wpc EXCEPT ![w] = "wait"]
-             /\ UNCHANGED <<queue, pool, running, pmx, woken, opc, oarg, wtask, tstate, nextTask, nextW, opsLeft, finalDone>>
+             /\ UNCHANGED <<queue, pool, running, pmx, woken, opc, oarg, wtask, tstate, nextTask, nextW, opsLeft, finalDone, expired, bornExpired>>
 WWake(w) == /\ wpc[w] = "wait" /\ w \in woken /\ qmx = -1
             /\ woken' = woken \ {w} /\ Eval(w)
-            /\ UNCHANGED <<pool, running, pmx, cv, opc, oarg, nextTask, nextW, opsLeft, finalDone>>
+            /\ UNCHANGED <<pool, running, pmx, cv, opc, oarg, nextTask, nextW, opsLeft, finalDone, expired, bornExpired>>
 WRunEnd(w) == /\ wpc[w] = "run"
               /\ tstate' = [tstate EXCEPT ![wtask[w]] = "destroyed"]     \* run() returned, then `delete runnable`
               /\ wtask' = [wtask EXCEPT ![w] = 0] /\ wpc' = [wpc EXCEPT ![w] = "lockq"]
-              /\ UNCHANGED <<queue, pool, running, qmx, pmx, cv, woken, opc, oarg, nextTask, nextW, opsLeft, finalDone>>
+              /\ expired' = expired \ {w}                                     \* setLastActiveTime(time())
+              /\ UNCHANGED <<queue, pool, running, qmx, pmx, cv, woken, opc, oarg, nextTask, nextW, opsLeft, finalDone, bornExpired>>
 Spurious(w) == /\ AllowSpurious /\ wpc[w] = "wait" /\ w \in cv
                /\ cv' = cv \ {w} /\ woken' = woken \cup {w}
-               /\ UNCHANGED <<queue, pool, running, qmx, pmx, opc, oarg, wpc, wtask, tstate, nextTask, nextW, opsLeft, finalDone>>
+               /\ UNCHANGED <<queue, pool, running, qmx, pmx, opc, oarg, wpc, wtask, tstate, nextTask, nextW, opsLeft, finalDone, expired, bornExpired>>
 
-Next == \/ SCall \/ SPush \/ SPool \/ SCreate \/ \E w \in Workers \cup {0} : SNotify(w)
+
+(* ---------------- expiry: the virtual clock and update() ---------------- *)
+\* the clock moves past the expiry timeout: every worker that exists now has been idle too long
+\* (a worker that finishes a task afterwards is fresh again, and so is every worker created later)
+Tick == /\ Expiry /\ opsLeft > 0
+        /\ expired' = {w \in Workers : wpc[w] \in {"start", "lockq", "prewait", "wait", "run"}}
+        /\ bornExpired' = (opc = "s_create")
+        /\ (expired' # expired \/ bornExpired' # bornExpired)
+        /\ UNCHANGED <<queue, pool, running, qmx, pmx, cv, woken, opc, oarg, wpc, wtask, tstate, nextTask, nextW, opsLeft, finalDone>>
+\* update(): wake everybody so that expired workers leave, then reap the finished threads
+UCall == /\ Expiry /\ opc = "idle" /\ opsLeft > 0
+         /\ opsLeft' = opsLeft - 1 /\ opc' = "u_notify"
+         /\ UNCHANGED <<queue, pool, running, qmx, pmx, cv, woken, oarg, wpc, wtask, tstate, nextTask, nextW, finalDone, expired, bornExpired>>
+UNotify == /\ opc = "u_notify"
+           /\ woken' = woken \cup cv /\ cv' = {} /\ opc' = "u_lockpool"
+           /\ UNCHANGED <<queue, pool, running, qmx, pmx, oarg, wpc, wtask, tstate, nextTask, nextW, opsLeft, finalDone, expired, bornExpired>>
+FirstFinished(p, from) == IF \E i \in from..Len(p) : Finished(p[i])
+                          THEN CHOOSE i \in from..Len(p) : Finished(p[i]) /\ \A j \in from..(i - 1) : ~Finished(p[j])
+                          ELSE 0
+ULockPool == /\ opc = "u_lockpool" /\ pmx = -1
+             /\ LET i == FirstFinished(pool, 1) IN
+                IF i = 0 THEN opc' = "idle" /\ UNCHANGED <<pmx, oarg>>
+                         ELSE pmx' = 0 /\ opc' = "u_join" /\ oarg' = i
+             /\ UNCHANGED <<queue, pool, running, qmx, cv, woken, wpc, wtask, tstate, nextTask, nextW, opsLeft, finalDone, expired, bornExpired>>
+Without(p, i) == SubSeq(p, 1, i - 1) \o SubSeq(p, i + 1, Len(p))
+UJoin == /\ opc = "u_join" /\ wpc[pool[oarg]] = "done"
+         /\ wpc' = [wpc EXCEPT ![pool[oarg]] = "joined"]
+         /\ pool' = Without(pool, oarg)
+         /\ LET i == FirstFinished(pool', oarg) IN     \* the scan continues with the element that moved into this place
+            IF i = 0 THEN pmx' = -1 /\ opc' = "idle" /\ oarg' = 0
+                     ELSE oarg' = i /\ UNCHANGED <<pmx, opc>>
+         /\ UNCHANGED <<queue, running, qmx, cv, woken, wtask, tstate, nextTask, nextW, opsLeft, finalDone, expired, bornExpired>>
+
+Next == \/ Tick \/ UCall \/ UNotify \/ ULockPool \/ UJoin
+        \/ SCall \/ SPush \/ SPool \/ SCreate \/ \E w \in Workers \cup {0} : SNotify(w)
         \/ CCall \/ CClear
         \/ TCall \/ TFlag \/ TNotify \/ TLockPool \/ TJoin \/ TClearQ
         \/ \E w \in Workers : WStart(w) \/ WAcq(w) \/ WBlock(w) \/ WWake(w) \/ WRunEnd(w) \/ Spurious(w)
 Spec == Init /\ [][Next]_vars
 FairSpec == Spec /\ WF_vars(SPush \/ SPool \/ SCreate \/ (\E w \in Workers \cup {0} : SNotify(w)) \/ CClear
-                            \/ TFlag \/ TNotify \/ TLockPool \/ TJoin \/ TClearQ)
+                            \/ TFlag \/ TNotify \/ TLockPool \/ TJoin \/ TClearQ \/ UNotify \/ ULockPool \/ UJoin)
                  /\ \A w \in Workers : WF_vars(WStart(w) \/ WAcq(w) \/ WBlock(w) \/ WWake(w) \/ WRunEnd(w))
 
 (* ---------------- properties ---------------- *)
@@ -179,16 +223,19 @@ OwnerAcc ==
                          \cup (IF ~FlagUnderMutex THEN {A(Loc("running"), TRUE, {})} ELSE {})                       \* stop(), as it was
       [] opc = "t_flag" -> {A(Loc("running"), TRUE, {"q"})}
       [] opc \in {"s_lockq", "c_lockq", "t_lockq"} -> {A(Loc("queue"), TRUE, {"q"})}
-      [] opc = "s_lockpool" -> {A(Loc("pool"), FALSE, {"p"})} \cup {A(FinLoc(w), FALSE, {"p"}) : w \in Range(pool)}
+      [] opc = "s_lockpool" -> {A(Loc("pool"), FALSE, {"p"})} \cup (IF FinishedAtomic THEN {} ELSE {A(FinLoc(w), FALSE, {"p"}) : w \in Range(pool)})
       [] opc = "s_create" -> {A(Loc("pool"), TRUE, {"p"})}
-      [] opc = "t_lockpool" -> {A(Loc("pool"), FALSE, {"p"})}
+      [] opc \in {"t_lockpool"} -> {A(Loc("pool"), FALSE, {"p"})}
+      [] opc = "u_lockpool" -> {A(Loc("pool"), FALSE, {"p"})} \cup (IF FinishedAtomic THEN {} ELSE {A(FinLoc(w), FALSE, {"p"}) : w \in Range(pool)})
+      [] opc = "u_join" -> {A(Loc("pool"), TRUE, {"p"})}
       [] opc = "t_join" -> {A(Loc("pool"), TRUE, {"p"})}
       [] OTHER -> {}
-OwnerEnabled == ENABLED (SCall \/ SPush \/ SPool \/ SCreate \/ CCall \/ CClear \/ TCall \/ TFlag \/ TLockPool \/ TJoin \/ TClearQ)
+OwnerEnabled == ENABLED (SCall \/ SPush \/ SPool \/ SCreate \/ CCall \/ CClear \/ TCall \/ TFlag \/ TLockPool \/ TJoin \/ TClearQ \/ ULockPool \/ UJoin)
 WorkerAcc(w) ==
     IF wpc[w] = "lockq" \/ (wpc[w] = "wait" /\ w \in woken)
     THEN {A(Loc("queue"), TRUE, {"q"}), A(Loc("running"), FALSE, {"q"})}
-         \cup (IF ~running THEN {A(FinLoc(w), TRUE, {})} ELSE {})       \* exits: m_isFinished = true, no mutex
+         \cup (IF (~running \/ (queue = <<>> /\ IsExpired(w))) /\ ~FinishedAtomic
+                THEN {A(FinLoc(w), TRUE, {})} ELSE {})                     \* exits: m_isFinished = true, no mutex
     ELSE {}
 WorkerEnabled(w) == ENABLED (WAcq(w) \/ WWake(w))
 \* a worker is ordered after the owner's start() by thread creation and before `delete thread` by join: the
@@ -199,5 +246,5 @@ NoRace == /\ \A w \in Workers : (OwnerEnabled /\ WorkerEnabled(w)) =>
           /\ \A w, u \in Workers : (w # u /\ WorkerEnabled(w) /\ WorkerEnabled(u)) =>
                  \A a \in WorkerAcc(w), b \in WorkerAcc(u) : ~Conflict(a, b)
 MutexOK == /\ (qmx # -1 => wpc[qmx] = "prewait")
-           /\ (pmx = 0 <=> opc \in {"s_create", "t_join"})
+           /\ (pmx = 0 <=> opc \in {"s_create", "t_join", "u_join"})
 =============================================================================
